@@ -129,19 +129,97 @@ def make_scorer(spec):
     raise ValueError(s)
 
 
+HIST_FORMS = ("f32", "f64", "list", "arrow", "torch")
+
+
+def make_history(q):
+    """The history list of a query in the storage form q["hist_form"], with the objects handed to ItemList.
+
+    f32 / f64: writable NumPy arrays of that precision (the identifiers are a writable array as well); list: plain Python lists;
+    arrow: Arrow arrays (read-only buffers); torch: a single-precision tensor.  q["hist_extra"] adds an integer `timestamp` field.
+    Returns (ItemList, {field name: the array object that was supplied}).
+    """
+    ids = [h[0] for h in q["history"]]
+    vals = [float(fparse(h[1])) for h in q["history"]]
+    ts = [1000 + 7 * k for k in range(len(ids))]
+    form = q.get("hist_form", "f32")
+    raw = {}
+    if form == "list":
+        idv = [iid(i) for i in ids]
+        fields = {"rating": list(vals)}
+        if q.get("hist_extra"):
+            fields["timestamp"] = list(ts)
+    elif form == "arrow":
+        import pyarrow as pa
+        idv = id_array(ids)
+        fields = {"rating": pa.array(vals, type=pa.float32())}
+        if q.get("hist_extra"):
+            fields["timestamp"] = pa.array(ts, type=pa.int64())
+    elif form == "torch":
+        idv = id_array(ids)
+        fields = {"rating": torch.tensor(vals, dtype=torch.float32)}
+        if q.get("hist_extra"):
+            fields["timestamp"] = torch.tensor(ts, dtype=torch.int64)
+        raw = {k: v.numpy() for k, v in fields.items()}
+    else:
+        idv = id_array(ids)
+        fields = {"rating": np.array(vals, dtype=np.float32 if form == "f32" else np.float64)}
+        if q.get("hist_extra"):
+            fields["timestamp"] = np.array(ts, dtype=np.int64)
+        raw = dict(fields)
+        assert all(a.flags.writeable for a in raw.values())
+    if isinstance(idv, np.ndarray) and not STR_IDS:
+        raw["item_id"] = idv
+    return ItemList(item_ids=idv, **fields), raw
+
+
+class Query:
+    """One query object, built once and handed to every call of the query (base, repeat, permuted, halves, again)."""
+
+    def __init__(self, q):
+        self.hist, self.raw = (None, {}) if q["history"] is None else make_history(q)
+        form = q.get("form", "query")
+        if form == "id" and q["user"] is not None and self.hist is None:
+            self.obj = uid(q["user"])
+        elif form == "list" and q["user"] is None and self.hist is not None:
+            self.obj = self.hist
+        else:
+            self.obj = RecQuery(user_id=uid(q["user"]), user_items=self.hist)
+        self.user = uid(q["user"])
+        # what was supplied, kept apart from the objects the scorer sees
+        self.raw0 = {k: (str(a.dtype), a.tobytes()) for k, a in self.raw.items()}
+        self.supplied = self.snapshot()
+
+    def snapshot(self):
+        """The query as the caller sees it now (identifier, the history's ids and every field, exact values)."""
+        o = {"user": None, "history": None}
+        if isinstance(self.obj, RecQuery):
+            o["user"] = None if self.obj.user_id is None else back_u(self.obj.user_id)
+            o["same_history_object"] = self.obj.user_items is self.hist
+        elif self.obj is not self.hist:
+            o["user"] = back_u(self.obj)
+        if self.hist is not None:
+            h = self.hist
+            names = sorted(c for c in h.to_df(numbers=False).columns if c != "item_id")
+            o["history"] = {
+                "ids": [back(i) for i in h.ids().tolist()],
+                "len": len(h),
+                "ordered": bool(h.ordered),
+                "fields": {n: [num(x) for x in np.asarray(h.field(n, "numpy")).tolist()] for n in names},
+                "dtypes": {n: str(np.asarray(h.field(n, "numpy")).dtype) for n in names},
+                # the array objects that were handed over, bit for bit
+                "raw_intact": {k: (str(a.dtype), a.tobytes()) == self.raw0[k] for k, a in sorted(self.raw.items())},
+            }
+        return o
+
+
+def back_u(x):
+    return int(str(x)[1:]) if STR_IDS else int(x)
+
+
 def make_query(q):
-    """q: {"user": id|None, "history": [[item, rating]]|None, "form": "query"|"id"|"list"}"""
-    hist = None
-    if q["history"] is not None:
-        ids = [h[0] for h in q["history"]]
-        rs = np.array([float(fparse(h[1])) for h in q["history"]], dtype=np.float32)
-        hist = ItemList(item_ids=id_array(ids), rating=rs)
-    form = q.get("form", "query")
-    if form == "id" and q["user"] is not None and hist is None:
-        return uid(q["user"])
-    if form == "list" and q["user"] is None and hist is not None:
-        return hist
-    return RecQuery(user_id=uid(q["user"]), user_items=hist)
+    """q: {"user": id|None, "history": [[item, rating]]|None, "form": "query"|"id"|"list"} -- a fresh query object"""
+    return Query(q).obj
 
 
 def make_cands(ids, extra, ordered, vocab=None):
@@ -158,13 +236,42 @@ def err_kind(e):
     return "E:" + type(e).__name__
 
 
-def call(scorer, name, q, ids, extra=False, ordered=False, vocab=None):
-    cand = make_cands(ids, extra, ordered, vocab)
+def cand_state(cand, extra):
+    o = {"ids": [back(i) for i in cand.ids().tolist()], "len": len(cand), "ordered": bool(cand.ordered), "scored": cand.scores() is not None,
+         "fields": sorted(c for c in cand.to_df(numbers=False).columns if c != "item_id")}
+    if extra:
+        p, t = cand.field("price"), cand.field("tag")
+        o["price"] = None if p is None else [num(x) for x in p.tolist()]
+        o["tag"] = None if t is None else [int(x) for x in t.tolist()]
+    return o
+
+
+def call(scorer, name, query, ids, extra=False, ordered=False, vocab=None, cand=None):
+    """One scoring call with the query object `query` (a Query: the same object for every call of one generated query)."""
+    if cand is None:
+        cand = make_cands(ids, extra, ordered, vocab)
+    before = cand_state(cand, extra)
+    o = _call(scorer, name, query, cand, extra)
+    # after the call, whatever it returned or raised: the caller's query and candidate list are what was supplied
+    try:
+        o["query_after"] = query.snapshot()
+    except Exception as e:
+        o["query_after"] = {"unreadable": err_kind(e) + ": " + str(e)[:120]}
+    try:
+        after = cand_state(cand, extra)
+    except Exception as e:
+        after = {"unreadable": err_kind(e) + ": " + str(e)[:120]}
+    o["cand_before"], o["cand_after"] = before, after
+    o["cand"] = cand
+    return o
+
+
+def _call(scorer, name, query, cand, extra):
     try:
         if name == "popularity":
             res = scorer(cand)
         else:
-            res = scorer(make_query(q), cand)
+            res = scorer(query.obj, cand)
     except Exception as e:
         return {"error": err_kind(e), "msg": str(e)[:160]}
     o = {"error": None, "type": type(res).__name__}
@@ -179,9 +286,6 @@ def call(scorer, name, q, ids, extra=False, ordered=False, vocab=None):
         p, t = res.field("price"), res.field("tag")
         o["price"] = None if p is None else [num(x) for x in p.tolist()]
         o["tag"] = None if t is None else [int(x) for x in t.tolist()]
-    # the caller's list must not have acquired a score
-    o["input_scored"] = cand.scores() is not None
-    o["input_ids"] = [back(i) for i in cand.ids().tolist()]
     return o
 
 
@@ -205,14 +309,19 @@ def run(case):
         ids = q["items"]
         known = set(case["items"])
         vocab = ds.items if q.get("by_number") and ids and all(i in known for i in ids) else None
-        c = {"base": call(scorer, name, q, ids, extra=q.get("extra", False), ordered=q.get("ordered", False), vocab=vocab)}
-        c["repeat"] = call(scorer, name, q, ids, extra=q.get("extra", False), ordered=q.get("ordered", False), vocab=vocab)
+        query = Query(q)           # ONE query object for all six calls
+        extra, ordered = q.get("extra", False), q.get("ordered", False)
+        c = {"supplied": query.supplied, "base": call(scorer, name, query, ids, extra=extra, ordered=ordered, vocab=vocab)}
+        # the repeated call is handed the very same candidate list object as well
+        c["repeat"] = call(scorer, name, query, ids, extra=extra, ordered=ordered, cand=c["base"]["cand"])
         perm = [ids[j] for j in q["perm"]]
-        c["perm"] = call(scorer, name, q, perm)
+        c["perm"] = call(scorer, name, query, perm)
         h = q["split"]
-        c["half_a"] = call(scorer, name, q, ids[:h], vocab=vocab if ids[:h] else None)
-        c["half_b"] = call(scorer, name, q, ids[h:])
-        c["again"] = call(scorer, name, q, ids)          # after the other calls: the model is unchanged
+        c["half_a"] = call(scorer, name, query, ids[:h], vocab=vocab if ids[:h] else None)
+        c["half_b"] = call(scorer, name, query, ids[h:])
+        c["again"] = call(scorer, name, query, ids)          # after the other calls: the model is unchanged
+        for k in ("base", "repeat", "perm", "half_a", "half_b", "again"):
+            del c[k]["cand"]
         calls.append(c)
     obs["calls"] = calls
     return obs
